@@ -56,6 +56,8 @@ func init() {
 			}
 		},
 	})
+
+	Registry["C06"].ColdStart = func(c *mon.Ctx) { c06RunConc(c, c.Seed*7919+uint64(c.Shard)+1) }
 }
 
 func c06Generate(c *mon.Ctx) {
@@ -210,6 +212,9 @@ func c06Generate(c *mon.Ctx) {
 
 		return cs
 	})
+
+	// and again at the end of the shard, when the process has a history behind it
+	concBatches(c, c.N(4, 200), func(seed uint64) any { return &c06Case{Conc: seed + 50000} })
 }
 
 func c06RunChain(c *mon.Ctx, cs *c06Case) {
